@@ -19,7 +19,9 @@
 package dag
 
 import (
+	"bytes"
 	"encoding/base64"
+	"errors"
 	"fmt"
 	"math"
 	"time"
@@ -36,6 +38,10 @@ func ParseTransaction(input []byte) (Transaction, error) {
 	message, err := jws.Parse(input)
 	if err != nil {
 		return nil, fmt.Errorf(unableToParseTransactionErrFmt, err)
+	}
+	// jws.Parse ignores everything after the third part of a compact JWS, while the transaction reference is calculated over all bytes
+	if trimmed := bytes.TrimSpace(input); len(trimmed) > 0 && trimmed[0] != '{' && bytes.Count(trimmed, []byte{'.'}) != 2 {
+		return nil, fmt.Errorf(unableToParseTransactionErrFmt, errors.New("compact JWS must consist of 3 parts"))
 	}
 	if len(message.Signatures()) == 0 {
 		return nil, transactionValidationError("JWS does not contain any signature")
